@@ -137,7 +137,7 @@ class Ctx:
         r = sh([sys.executable, str(gen), str(REPO), str(LEAN / "Pixman" / "Gen")])
         return r.returncode == 0, r.stdout
 
-    def lean_obligations(self, module, required, probes=()):
+    def lean_obligations(self, module, required, extra_modules=()):
         """Build `module` (a Props module) against freshly regenerated Gen sources, audit the source
         for forbidden constructs, and #print axioms of every required theorem.  Fills
         self.obligations; returns list of broken obligation names."""
@@ -148,7 +148,7 @@ class Ctx:
                 self.obligations.append(Obligation("extraction(tools/gen_all.py)", False, out[-2000:]))
                 return ["extraction"]
             self.obligations.append(Obligation("extraction(tools/gen_all.py)", True))
-            r = sh(["lake", "build", module, "pixdrv"], cwd=LEAN)
+            r = sh(["lake", "build", module, "pixdrv"] + list(extra_modules), cwd=LEAN)
             build_ok = r.returncode == 0
             buildlog = r.stdout
             broken_thms = set()
@@ -160,7 +160,7 @@ class Ctx:
             # axiom audit
             results = {}
             if build_ok:
-                results = self.print_axioms(module, required)
+                results = self.print_axioms([module] + list(extra_modules), required)
             for t in required:
                 if not build_ok:
                     okt = False
@@ -216,9 +216,11 @@ class Ctx:
                     bad.append(f"{p.relative_to(LEAN)}:{i}")
         return bad
 
-    def print_axioms(self, module, theorems):
+    def print_axioms(self, modules, theorems):
         f = self.scratch / "Axioms.lean"
-        f.write_text(f"import {module}\n" + "".join(f"#print axioms {t}\n" for t in theorems))
+        if isinstance(modules, str):
+            modules = [modules]
+        f.write_text("".join(f"import {m}\n" for m in modules) + "".join(f"#print axioms {t}\n" for t in theorems))
         r = sh(["lake", "env", "lean", str(f)], cwd=LEAN)
         res = {}
         out = r.stdout
